@@ -1,7 +1,7 @@
 import vp
 
 SHAPES_QUICK = ["N", "NBN", "NBNBN", "NBNBNBN", "UN", "UUN", "NBUN", "UNBN", "(N)", "(NBN)BN", "NB(NBN)", "NB(NBN)BN", "U(NBN)", "NBNB(NBN)", "(NBN)B(NBN)", "((N))", "NB", "BN", "NN", "NBBN"]
-SHAPES_THOROUGH = SHAPES_QUICK + ["NBNBNBNBN", "NBNBUNBN", "(NBNBN)BN", "NB(NBNBN)", "NB((NBN)BN)", "U(NBNBN)", "NBUUN", "(NBN)BNBN"]
+SHAPES_THOROUGH = SHAPES_QUICK + ["NBNBNBNBN", "NBNBNBNBNBN", "NBNBUNBN", "(NBNBN)BN", "NB(NBNBN)", "NB((NBN)BN)", "U(NBNBN)", "NBUUN", "(NBN)BNBN"]
 
 
 def jobs(tier):
@@ -18,8 +18,6 @@ def jobs(tier):
     for nd in (1, 5, 10, 18): L("dec%d" % nd, {"NOTATION": 3, "NDIG": nd})
     L("bin0b.8", {"NOTATION": 4, "NBITS": 8, "SYMBITS": 7}); L("bin0b.31", {"NOTATION": 4, "NBITS": 31, "SYMBITS": 6}); L("binb.16", {"NOTATION": 5, "NBITS": 16, "SYMBITS": 6})
     L("oct5", {"NOTATION": 6, "NDIG": 5}); L("oct21", {"NOTATION": 6, "NDIG": 21}); L("char", {"NOTATION": 7})
-    # probe for the recorded finding (three tightening precedence levels): same harness with the assertion for that class enabled
-    js.append(vp.Job("eval_grammar.NBNBNBN.known", "eval_grammar.cpp", {"SHAPE": '"NBNBNBN"', "SHOW_KNOWN": None}, uf_muldiv=True, max_paths=400000, timeout=500))
     return js
 
 
